@@ -290,6 +290,30 @@ def _make_member_classes():
 # ----------------------------------------------------------------------------
 
 SOLVELIKE = ("solve", "is_sat", "is_valid", "is_unsat", "solve_assuming")
+# the ways an Iterable argument is handed to the API (same content; results must not depend on it)
+FORMS = ("list", "tuple", "set", "frozenset", "gen", "map", "filter", "iter")
+UNORDERED = ("set", "frozenset")
+
+
+def mk_container(form, items):
+    items = list(items)
+    if form == "list":
+        return items
+    if form == "tuple":
+        return tuple(items)
+    if form == "set":
+        return set(items)
+    if form == "frozenset":
+        return frozenset(items)
+    if form == "gen":
+        return (x for x in items)
+    if form == "map":
+        return map(lambda x: x, items)
+    if form == "filter":
+        return filter(lambda x: True, items)
+    if form == "iter":
+        return iter(items)
+    raise ValueError(form)
 
 
 def _emit(ev):
@@ -310,14 +334,35 @@ def worker(sc):
     except OSError:
         pass
     env = get_env()               # the member processes use get_env() of the forked image
-    env.factory._all_solvers["hmember"] = _make_member_classes()
+    HS = _make_member_classes()
+    env.factory._all_solvers["hmember"] = HS
     sset = []
+    sform = sc.get("sset_form", "list")
     for i, m in enumerate(sc["members"]):
-        sset.append(("hmember", {"solver_options": {"mode": m["mode"], "delay_ms": m["delay_ms"], "idx": i}}))
+        if sform in UNORDERED:
+            # a set can only hold plain names: one registered class per member, whose options
+            # class supplies the member's parameters
+            def _opt_cls(base, mm, ii):
+                class O(base):
+                    def __init__(self, **kw):
+                        base.__init__(self, **kw)
+                        self.mode, self.delay_ms, self.idx = mm["mode"], mm["delay_ms"], ii
+                return O
+            env.factory._all_solvers["hm%d" % i] = type("HS%d" % i, (HS,), {"OptionsClass": _opt_cls(HS.OptionsClass, m, i)})
+            sset.append("hm%d" % i)
+        else:
+            sset.append(("hmember", {"solver_options": {"mode": m["mode"], "delay_ms": m["delay_ms"], "idx": i}}))
     opts = {}
     if sc.get("eoe") is not None:
         opts["solver_options"] = {"exit_on_exception": bool(sc["eoe"])}
-    p = Portfolio(sset, environment=env, logic=QF_BV, **opts)
+    p = Portfolio(mk_container(sform, sset), environment=env, logic=QF_BV, **opts)
+
+    def winner_idx():
+        if p._ext_solver is None:
+            return None
+        num, name = p._ext_solver.name.split(" ", 1)
+        name = name.strip("()")
+        return int(name[2:]) if name.startswith("hm") and name[2:].isdigit() else int(num)
     who = Symbol(WHO, BVType(8))
     seen_children = []
     last_sat = False
@@ -338,7 +383,7 @@ def worker(sc):
     for k, op in enumerate(sc["ops"]):
         _emit({"begin": k, "op": op[0]})
         kind = op[0]
-        if kind in ("get_model", "get_value") and not last_sat:
+        if kind in ("get_model", "get_value", "get_values") and not last_sat:
             _emit({"end": k, "skipped": True})   # a query after a failed / unsat solve is API misuse
             continue
         try:
@@ -353,6 +398,29 @@ def worker(sc):
             elif kind == "pop":
                 p.pop(*op[1:2])
                 emit_end({"end": k})
+            elif kind == "add_many":
+                fs = [to_pysmt(a) for a in op[1]]
+                idxs = [fidx(f) for f in fs]
+                before = len(p._assertion_stack)
+                p.add_assertions(mk_container(op[2], fs))
+                emit_end({"end": k, "fidxs": idxs, "added": [ftab.get(a, 9999) for a in p._assertion_stack[before:]]})
+            elif kind == "get_values":
+                exprs, meta = [], {}
+                for (name, isbv) in op[1]:
+                    if isbv:
+                        e = BVConcat(who, Symbol(name, BVType(BVW)))
+                    else:
+                        e = BVConcat(who, Ite(Symbol(name, BOOL), BV(1, 1), BV(0, 1)))
+                    exprs.append(e)
+                    meta[e] = (name, isbv, BVW if isbv else 1)
+                res = p.get_values(mk_container(op[2], exprs))
+                got = []
+                for e, v in res.items():
+                    name, isbv, width = meta[e]
+                    v = v.constant_value()
+                    val = v & ((1 << width) - 1)
+                    got.append({"var": name, "who": v >> width, "val": val if isbv else bool(val)})
+                _emit({"end": k, "values": got})
             elif kind == "assertions":
                 emit_end({"end": k, "assertions": [ftab.get(a, 9999) for a in p.assertions],
                           "text": [str(a) for a in p.assertions]})
@@ -363,7 +431,7 @@ def worker(sc):
                         api = r = p.solve()
                         extra = {}
                     elif kind == "solve_assuming":   # op[1] = list of assumptions (any Boolean formulas)
-                        api = r = p.solve([to_pysmt(a) for a in op[1]])
+                        api = r = p.solve(mk_container(op[2] if len(op) > 2 else "list", [to_pysmt(a) for a in op[1]]))
                         extra = {}
                     else:
                         f = to_pysmt(op[1])
@@ -373,7 +441,7 @@ def worker(sc):
                         api = getattr(p, kind)(f)
                         r = api if kind == "is_sat" else ((not api) if isinstance(api, bool) else api)
                     last_sat = r is True
-                    w = p._ext_solver.name.split(" ")[0] if p._ext_solver is not None else None
+                    w = winner_idx()
                     ev = {"end": k, "res": r if isinstance(r, bool) else repr(r), "api": api if isinstance(api, bool) else repr(api),
                           "winner": int(w) if w is not None else None}
                     ev.update(extra)
@@ -536,17 +604,30 @@ def analyse(sc, evs, hung, rc):
             flush_round(final_ok=False)
             break
         e = ends.get(k)
-        if kind in ("add", "push", "pop", "assertions") and e is not None and "exc" in e:
+        if kind in ("add", "add_many", "push", "pop", "assertions") and e is not None and "exc" in e:
             problems.append(("command-exception", "%s raised %s" % (kind, e["exc"])))
             flush_round(final_ok=False)
             break
-        if kind in ("add", "push", "pop", "assertions") and e is None:
+        if kind in ("add", "add_many", "push", "pop", "assertions") and e is None:
             problems.append(("hang-in-command", "%s blocked" % kind))
             flush_round(final_ok=False)
             break
         if kind == "add":
             stack[-1].append(op[1])
             fidxs[json.dumps(op[1])] = e.get("fidx")
+        elif kind == "add_many":
+            # same content whatever the container; a set may deliver it in any order
+            byidx = dict(zip(e.get("fidxs", []), op[1]))
+            for a, i in zip(op[1], e.get("fidxs", [])):
+                fidxs[json.dumps(a)] = i
+            added = e.get("added", [])
+            same = sorted(added) == sorted(e.get("fidxs", [])) if op[2] in UNORDERED else added == e.get("fidxs", [])
+            if not same:
+                problems.append(("container-form", "add_assertions(<%s of %d formulas>) asserted %d of them (indexes %s, expected %s)"
+                                 % (op[2], len(op[1]), len(added), added, e.get("fidxs"))))
+                stack[-1].extend(op[1])
+            else:
+                stack[-1].extend(byidx[i] for i in added)
         elif kind == "push":
             for _ in range(op[1] if len(op) > 1 else 1):
                 stack.append([])
@@ -615,8 +696,8 @@ def analyse(sc, evs, hung, rc):
                 elif not answering:
                     problems.append(("verdict-from-nowhere", "solve returned %s although no member answers" % e["res"]))
                 elif e["res"] != verdict and kind == "solve_assuming" and e["res"] == brute_sat(assertions[:nlive]):
-                    problems.append(("solve-ignores-assumptions", "solve(assumptions=%s) returned %s, the verdict of the assertions %s "
-                                     "WITHOUT the assumptions; with them they are %s" % ([jstr(a) for a in assertions[nlive:]], e["res"],
+                    problems.append(("solve-ignores-assumptions", "solve(assumptions=<%s> %s) returned %s, the verdict of the assertions %s "
+                                     "WITHOUT the assumptions; with them they are %s" % (op[2] if len(op) > 2 else "list", [jstr(a) for a in assertions[nlive:]], e["res"],
                                                                                        [jstr(a) for a in assertions[:nlive]], "sat" if verdict else "unsat")))
                     cur["state"] = "other"
                 elif e["res"] != verdict:
@@ -627,6 +708,31 @@ def analyse(sc, evs, hung, rc):
                     problems.append(("survivor-did-not-answer", "the member kept for queries (%s) did not answer" % e["winner"]))
                     cur["state"] = "other"
                 cur["values"] = {}
+        elif kind == "get_values":
+            if cur is None or cur["state"] != "returned" or (e is not None and e.get("skipped")):
+                k += 1
+                continue
+            if e is None:
+                cur["script"].append("QValue")
+                cur["state"] = "hang_query"
+                problems.append(("hang-in-query", "get_values blocked after solve returned %s" % cur["res"]))
+                flush_round()
+                break
+            if "exc" in e:
+                problems.append(("query-exception", "get_values(<%s>) raised %s" % (op[2], e["exc"])))
+                cur["state"] = "other"
+            else:
+                got = e["values"]
+                cur["script"].extend(["QValue"] * len(got))
+                cur["resp"].extend(g["who"] for g in got)
+                want = sorted(n for (n, _) in op[1])
+                if sorted(g["var"] for g in got) != want:
+                    problems.append(("container-form", "get_values(<%s of %s>) returned values for %s" % (op[2], want, sorted(g["var"] for g in got))))
+                vals = {g["var"]: g["val"] for g in got}
+                need = set().union(*[jvars(a) for a in cur["assertions"]] or [set()])
+                if need and all(nme in vals for (nme, _) in need) and not all(jeval(a, vals) for a in cur["assertions"]):
+                    problems.append(("values-do-not-satisfy", "the values returned by get_values %s do not satisfy the assertions%s %s"
+                                     % (vals, " and assumptions" if ops[cur["op"]][0] == "solve_assuming" else "", [jstr(a) for a in cur["assertions"]])))
         elif kind in ("get_model", "get_value"):
             if cur is None or cur["state"] != "returned":
                 k += 1
@@ -804,6 +910,8 @@ class _Ref(object):
         k = op[0]
         if k == "add":
             self.frames[-1].append(op[1])
+        elif k == "add_many":
+            self.frames[-1].extend(op[1])
         elif k == "push":
             self.frames.extend([] for _ in range(op[1]))
         elif k == "pop":
@@ -816,7 +924,7 @@ class _Ref(object):
             self.model = brute_sat(self.live() + [["not", op[1]]])
         elif k in ("is_sat", "is_unsat"):
             self.model = brute_sat(self.live() + [op[1]])
-        if k in ("add", "push", "pop"):
+        if k in ("add", "add_many", "push", "pop"):
             self.model = False
 
     def queries(self, which, extra=()):
@@ -826,6 +934,9 @@ class _Ref(object):
             self.ops.append(["get_model"])
         else:
             vs = sorted(set().union(*[jvars(a) for a in self.live() + list(extra)] or [set()]))
+            if which in FORMS:                   # one get_values call with that container form
+                self.ops.append(["get_values", [[n, b] for (n, b) in vs], which])
+                return
             for (nme, isbv) in vs[:2]:
                 self.ops.append(["get_value", nme, isbv])
 
@@ -865,6 +976,36 @@ def directed_histories():
     return out
 
 
+def container_histories():
+    """Argument container protocol: the same content handed to solve(assumptions=...),
+    add_assertions(...) and get_values(...) as list / tuple / set / frozenset / generator / map /
+    filter / iterator, and the empty version of each; every result must be the list-form result."""
+    p, q = V("p"), V("q")
+    lt = ["bvult", ["bvvar", "x"], ["bvvar", "y"]]
+    out = []
+    for form in FORMS:
+        r = _Ref()
+        r.do(["add_many", [["or", p, q], lt], form])
+        r.do(["solve_assuming", [["not", p]], form])            # sat: q
+        r.queries(form, [["not", p]])
+        r.do(["solve_assuming", [["not", p], ["not", q]], form])  # unsat only WITH the assumptions
+        r.do(["solve_assuming", [], form])                       # empty container = plain solve
+        r.queries("m")
+        r.do(["add_many", [], form])
+        r.do(["push", 1])
+        r.do(["add_many", [["not", q], ["iff", p, q]], form])   # unsat only if both are asserted
+        r.do(["solve"])
+        r.do(["pop", 1])
+        r.do(["solve_assuming", [q, ["not", lt]], form])          # unsat only with the LAST assumption
+        r.do(["solve_assuming", [q, ["or", p, ["not", q]]], form])  # sat: p & q
+        r.queries(form, [q])
+        if r.model:
+            r.ops.append(["get_values", [], form])
+        r.ops.append(["assertions"])
+        out.append(r.ops)
+    return out
+
+
 def random_history(rnd):
     """6-10 commands over push(n) / pop(n) / add / is_sat / is_valid / is_unsat / solve /
     solve(assumptions: 1-2 arbitrary formulas) / get_model / get_value, always legal (never pops more levels than are open)."""
@@ -886,9 +1027,11 @@ def random_history(rnd):
         elif c < 0.8:
             r.do(["solve"])
         elif c < 0.88:
-            r.do(["solve_assuming", [rnd.choice(H_POOL) for _ in range(rnd.choice([1, 1, 2]))]])
+            r.do(["solve_assuming", [rnd.choice(H_POOL) for _ in range(rnd.choice([0, 1, 1, 2]))], rnd.choice(FORMS)])
+        elif c < 0.91:
+            r.do(["add_many", [rnd.choice(H_POOL) for _ in range(rnd.choice([0, 1, 2, 3]))], rnd.choice(FORMS)])
         elif c < 0.95 and r.model:
-            r.queries(rnd.choice("mv"), [r.ops[-1][1]] if last in ONESHOT else (r.ops[-1][1] if last == "solve_assuming" else []))
+            r.queries(rnd.choice(["m", "v", rnd.choice(FORMS)]), [r.ops[-1][1]] if last in ONESHOT else (r.ops[-1][1] if last == "solve_assuming" else []))
         elif depth:
             r.do(["pop", rnd.randrange(1, min(depth, 2) + 1)])
     r.do(["solve"])
@@ -982,6 +1125,22 @@ def scenarios(rnd, tier):
               [["add", ["or", V("p"), V("q")]], ["solve_assuming", [["iff", V("p"), V("q")], ["not", V("q")]]],
                ["solve_assuming", [["or", ["not", V("p")], ["not", V("q")]], V("p")]], ["get_value", "p", False], ["get_value", "q", False],
                ["get_model"], ["assertions"]]]
+    for form in FORMS:
+        # Portfolio(solvers_set=<container>): pairs (name, options) for the ordered forms, plain
+        # registered names for set / frozenset
+        for n in (2, 3):
+            if n == 3 and tier == "quick" and form in ("tuple", "map"):
+                continue
+            out.append({"members": [{"mode": "answer", "delay_ms": d} for d in ([0, 4, 8][:n])], "eoe": False, "sset_form": form,
+                        "ops": make_ops(rnd, "values"), "tag": "container"})
+        out.append({"members": [{"mode": "raise", "delay_ms": 0}, {"mode": "answer", "delay_ms": 10}], "eoe": False, "sset_form": form,
+                    "ops": make_ops(rnd, "cycle"), "tag": "container"})
+    out.append({"members": [], "eoe": False, "sset_form": "gen", "ops": make_ops(rnd, "short"), "tag": "container"})
+    out.append({"members": [], "eoe": False, "sset_form": "list", "ops": make_ops(rnd, "short"), "tag": "container"})
+    for ops in container_histories():
+        for n in (2, 3):
+            out.append({"members": [{"mode": "answer", "delay_ms": rnd.choice([0, 3, 9])} for _ in range(n)], "eoe": False,
+                        "ops": ops, "tag": "container", "raw": True})
     for ops in assume + directed_histories() + [random_history(rnd) for _ in range(60 if tier == "quick" else 500)]:
         n = rnd.choice([2, 2, 3])
         modes = ["answer"] * n
@@ -1019,8 +1178,16 @@ Definition res_eqb (a b : result (tst nat)) : bool :=
 Fixpoint lookup (t : list (nat * nat)) (n : nat) : nat :=
   match t with [] => n + 1000 | (a, b) :: r => if Nat.eqb a n then b else lookup r n end.
 """)
-HIST_TAIL = ("""Definition ok (c : list (nat * nat) * list (scmd nat) * list (result (tst nat))) : bool :=
-  let '(negs, cs, e) := c in leqb res_eqb (t_trace (lookup negs) t_init cs) e.
+HIST_TAIL = ("""(* None = a state the harness could not observe (inside add_assertions) *)
+Fixpoint trace_ok (a : list (result (tst nat))) (e : list (option (result (tst nat)))) : bool :=
+  match a, e with
+  | [], [] => true
+  | x :: a', None :: e' => trace_ok a' e'
+  | x :: a', Some y :: e' => res_eqb x y && trace_ok a' e'
+  | _, _ => false
+  end.
+Definition ok (c : list (nat * nat) * list (scmd nat) * list (option (result (tst nat)))) : bool :=
+  let '(negs, cs, e) := c in trace_ok (t_trace (lookup negs) t_init cs) e.
 Eval vm_compute in mismatches ok cases.
 """)
 
@@ -1034,12 +1201,19 @@ def history_case(sc, evs):
     for k, op in enumerate(sc["ops"]):
         e = ends.get(k)
         kind = op[0]
-        if kind in ("get_model", "get_value"):
+        if kind in ("get_model", "get_value", "get_values"):
             continue
         if e is None or "raw" not in e or "exc" in e or "err" in e:
             return None
         if kind == "add":
             cs.append("SAdd %d" % e["fidx"])
+        elif kind == "add_many":
+            if not e.get("added"):
+                continue                  # nothing asserted: no command
+            for i in e["added"][:-1]:
+                cs.append("SAdd %d" % i)
+                tr.append("None")         # intermediate states are not observed
+            cs.append("SAdd %d" % e["added"][-1])
         elif kind == "push":
             cs.append("SPush %d" % (op[1] if len(op) > 1 else 1))
         elif kind == "pop":
@@ -1058,14 +1232,14 @@ def history_case(sc, evs):
         else:
             return None
         a, b, pnd = e["raw"]
-        tr.append("Ok (mkT %s %s %s)" % (lib.coq_list([str(x) for x in a]), lib.coq_list([str(x) for x in b]), lib.coq_bool(pnd)))
+        tr.append("Some (Ok (mkT %s %s %s))" % (lib.coq_list([str(x) for x in a]), lib.coq_list([str(x) for x in b]), lib.coq_bool(pnd)))
     return "(%s, %s, %s)" % (lib.coq_list(negs), lib.coq_list(cs), lib.coq_list(tr))
 
 
 def write_history_files(chk, rows, shard=100):
     files, meta = [], {}
     for k in range(0, len(rows), shard):
-        body = HIST_HDR + "Definition cases : list (list (nat * nat) * list (scmd nat) * list (result (tst nat))) := [\n %s ].\n" % ";\n ".join(r for r, _ in rows[k:k + shard]) + HIST_TAIL
+        body = HIST_HDR + "Definition cases : list (list (nat * nat) * list (scmd nat) * list (option (result (tst nat)))) := [\n %s ].\n" % ";\n ".join(r for r, _ in rows[k:k + shard]) + HIST_TAIL
         p = os.path.join(chk.dir, "cases_hist_%d.v" % (k // shard))
         with open(p, "w") as f:
             f.write(body)
